@@ -184,7 +184,9 @@ Definition reader_prefixes (k : okind) : list string :=
   match k with
   | KGrant => ["internal/storage.(*GrantSessionManager)."; "internal/token."; "internal/userinfo."; "pkg/goidc.(*GrantSession)."; "pkg/goidc.(*GrantInfo)."]
   | KSession => ["internal/storage.(*AuthnSessionManager)."; "internal/authorize."; "internal/token."; "pkg/goidc.(*AuthnSession)."]
-  | KClient => ["internal/storage.(*ClientManager).Client"; "pkg/goidc.(*Client)."; "internal/clientutil."]
+  | KClient => ["internal/storage.(*ClientManager).Client"; "pkg/goidc.(*Client)."; "internal/clientutil.";
+                (* every handler package holds the loaded client of its request *)
+                "internal/authorize."; "internal/token."; "internal/userinfo."; "internal/dcr."; "internal/oidc."]
   end.
 
 (* "<site>:<kind>[:map]" *)
